@@ -885,7 +885,7 @@ def _rel(fc):
   """('cmp', op, l, r) -> (rel, l - r) with rel in ==, !=, <, <= (Gt / GtE are mirrored); None for other facts."""
   if not (isinstance(fc, tuple) and len(fc) == 4 and fc[0] == "cmp" and isinstance(fc[2], (Poly, int)) and isinstance(fc[3], (Poly, int))):
     return None
-  l, r = as_poly(fc[2]), as_poly(fc[3])
+  l, r = (Poly.const(x) if isinstance(x, int) else as_poly(x) for x in (fc[2], fc[3]))
   op = fc[1]
   if op in ("Gt", "GtE"):
     l, r = r, l
